@@ -475,6 +475,18 @@ def hunt(job):
     except BaseException:  # noqa
         if state["fail"] is None:
             raise
+    if state["fail"]:
+        sig = state["fail"]["sig"]
+
+        def fails(prog):
+            try:
+                run_program(totuple(prog))
+            except Violation as v:
+                return v.sig == sig
+            except Exception:
+                return False
+            return False
+        state["fail"]["prog"] = harness.ddmin_list(state["fail"]["prog"], fails)
     return {"runs": state["runs"], "fail": state["fail"], "events": state["events"],
             "shapes": sorted(state["shapes"]), "raise_in_ctx": state["raise_in_ctx"], "maxdepth": state["maxdepth"],
             "sample": state["sample"]}
